@@ -364,3 +364,6 @@ def run(repo: Repo, rep: Report, tier: str) -> None:
     from .c05 import leb128_rule as _leb
 
     _leb(repo, rep, "C12.R15")
+    from .c13 import parser_fold_rule
+
+    parser_fold_rule(repo, rep, "C12.R16")
